@@ -1,0 +1,13 @@
+//go:build verif
+
+// Contracts for the watermill verification harness (/verif, tool "gowp"). Comment-only.
+
+package internal
+
+//@ spec structName(v any) string
+
+//@ func StructName
+//@   trusted
+//@   pure
+//@   nopanic
+//@   ensures result == structName(v) [ASSUMED-pure-function-of-the-dynamic-type]
